@@ -15,7 +15,7 @@ EXPLANATION = (
     "vacuously, the same matchers are run on fixtures/positive (one deliberate instance of each construct) on every run and must all fire there."
 )
 NOT_DECIDED = ("determinism of the dependencies: hibitset iteration order, shred's MetaTable order, shrev, crossbeam (single-threaded), ahash point lookups; "
-               "destructor ORDER inside HashMapStorage::clean (hash order, not among the property's observables)")
+               "destructor ORDER inside HashMapStorage::clean (hash order, not among the property's observables) A hash container handed as an argument to generic foreign code (Vec::extend(set), from_iter(map), zip(set)) counts as hash-order iteration.")
 TRUSTED = ["rustc nightly MIR", "dependency crates are deterministic in what they return for point operations", "sa/ analyses"]
 LEVEL_TEXT = ("Absence of nondeterminism sources is a whole-program 'nothing reachable' query: it is decided for every body of all four feature "
               "configurations, with a positive fixture proving each matcher alive. It is sufficient for determinism only modulo the trusted "
